@@ -29,7 +29,7 @@ def generate(rng, n, tier, stats):
             refs = [ref(rng, a['dims'], i) for i in p]
             cases.append({'ins': [a], 'ops': [[rng.choice(['transpose', 'transpose_list']), refs]]})
         elif k == 'T':
-            a = arr(maxdim=3); cases.append({'ins': [a], 'ops': [['T']]})
+            a = arr(maxdim=4); cases.append({'ins': [a], 'ops': [['T'] if rng.random() < 0.6 else ['transpose', []]]})
         elif k == 'swapaxes':
             a = arr(ndim=rng.randint(1, 4)); nd = len(a['dims'])
             i, j = rng.randrange(nd), rng.randrange(nd)
@@ -130,12 +130,10 @@ def expected_dims(dims, lens, ops, ins):
             if n in ('transpose', 'transpose_list'):
                 p = [_pos(dims, r) for r in o[1]]
                 if not p:
-                    if len(dims) > 2: return None
-                    p = list(range(len(dims)))[::-1]
+                    p = list(range(len(dims)))[::-1]          # no argument: all dimensions reversed, as NumPy
                 if sorted(p) != list(range(len(dims))): return None
                 dims = [dims[i] for i in p]
             elif n == 'T':
-                if len(dims) > 2: return None
                 dims = dims[::-1]
             elif n == 'swapaxes':
                 i, j = _pos(dims, o[1]), _pos(dims, o[2]); dims[i], dims[j] = dims[j], dims[i]
